@@ -1,5 +1,6 @@
 import EIO.Model.Containers
 import EIO.Model.Ids
+import EIO.Model.SyncMap
 import Driver.Util
 namespace Driver
 open EIO EIO.Cont EIO.Ids
@@ -7,7 +8,7 @@ open EIO EIO.Cont EIO.Ids
 structure UtlState where
   gs : GS := ⟨[], 0⟩
   set : List Int := []
-  mp : List (Int × Int) := []
+  mp : EIO.SMap.St := {}
   em : Em := {}
   reacts : List (Nat × List String) := []
   ystate : YState := {}
@@ -61,33 +62,53 @@ def setStep (s : List Int) (t : List String) : List Int × String :=
   | ["clear"] => st [] "1"
   | _ => (s, "bad-op")
 
-/-- the Map is modelled only as the finite map it must behave like -/
-def mapStep (m : List (Int × Int)) (t : List String) (quiet : Bool := false) : List (Int × Int) × String :=
-  let sorted (m : List (Int × Int)) := m.mergeSort (fun a b => a.1 ≤ b.1)
-  -- quiet: the harness does not list the contents (listing them walks the map, which reorganises it)
-  let st (m : List (Int × Int)) (res : String) :=
-    let kv := (sorted m).map fun (k, v) => s!"{k}={v}"
-    if quiet then (m, res ++ s!" ; len={m.length}") else
-    (m, res ++ " ; " ++ (if kv.isEmpty then "-" else ",".intercalate kv) ++ s!" len={m.length}")
-  let lookup (k : Int) := (m.find? (·.1 == k)).map (·.2)
-  let del (k : Int) := m.filter (·.1 != k)
-  let put (k v : Int) := (del k) ++ [(k, v)]
+/-- the concrete state of the Map as the verif-only `VerifDump` of types/map_verif.go shows it:
+    the read map, `amended`, the dirty map (or `nil`), the miss counter; per key the entry's
+    pointer state (`v<value>`, `n` = nil, `x` = expunged); `!` marks a dirty entry that is not
+    the very entry the read map holds for that key -/
+def mapDump (s : EIO.SMap.St) : String :=
+  let slotStr (e : Nat) : String := match s.slot e with
+    | .val v => s!"v{v}" | .nil => "n" | .expunged => "x"
+  let sorted (l : EIO.SMap.AL) := l.mergeSort (fun a b => a.1 ≤ b.1)
+  let showAL (l : EIO.SMap.AL) (mark : Int → Nat → String) : String :=
+    if l.isEmpty then "-" else ",".intercalate ((sorted l).map fun (k, e) => s!"{k}={slotStr e}{mark k e}")
+  let rd := showAL s.read (fun _ _ => "")
+  let dd := match s.dirty with
+    | none => "nil"
+    | some d => showAL d (fun k e => match EIO.SMap.lk s.read k with
+        | some e' => if e' = e then "" else "!" | none => "")
+  s!"R:{rd} A:{if s.amended then 1 else 0} D:{dd} M:{s.misses}{if s.fault then " FAULT" else ""}"
+
+/-- the Map runs the model of types/map.go (`EIO.SMap`), call for call — including the calls the
+    harness itself makes to show the contents (`Len`, `Keys`, one `Load` per key) -/
+def mapStep (m : EIO.SMap.St) (t : List String) (mode : Nat := 0) : EIO.SMap.St × String :=
+  -- mode 0: contents listed (Len, Keys, Load each); 1 (quiet): Len only; 2 (raw): no call, the dump
+  let st (m : EIO.SMap.St) (res : String) : EIO.SMap.St × String :=
+    if mode = 2 then (m, res ++ " ; " ++ mapDump m) else
+    let (m, pairs) := m.range
+    let n := pairs.length
+    if mode = 1 then (m, res ++ s!" ; len={n}") else
+    let (m, pairs) := m.range
+    let keys := (pairs.map (·.1)).mergeSort (· ≤ ·)
+    let (m, kv) := keys.foldl (fun (acc : EIO.SMap.St × List String) k =>
+      let (m', v) := acc.1.load k
+      (m', acc.2 ++ [s!"{k}={match v with | some x => toString x | none => "none"}"])) (m, [])
+    (m, res ++ " ; " ++ (if kv.isEmpty then "-" else ",".intercalate kv) ++ s!" len={n}")
   let vb (o : Option Int) := match o with | some v => toString v | none => "none"
+  let b (x : Bool) := if x then "1" else "0"
   match t with
-  | ["new"] => st [] "ok"
-  | ["store", k, v] => st (put k.toInt! v.toInt!) "ok"
-  | ["load", k] => st m (vb (lookup k.toInt!))
-  | ["loadorstore", k, v] =>
-    match lookup k.toInt! with
-    | some old => st m s!"{old},1"
-    | none => st (put k.toInt! v.toInt!) s!"{v.toInt!},0"
-  | ["loadanddelete", k] => st (del k.toInt!) (vb (lookup k.toInt!))
-  | ["delete", k] => st (del k.toInt!) "ok"
-  | ["swap", k, v] => st (put k.toInt! v.toInt!) (vb (lookup k.toInt!))
-  | ["cas", k, o, n] => if lookup k.toInt! = some o.toInt! then st (put k.toInt! n.toInt!) "1" else st m "0"
-  | ["cad", k, o] => if lookup k.toInt! = some o.toInt! then st (del k.toInt!) "1" else st m "0"
-  | ["clear"] => st [] "ok"
-  | ["range", n] => st m s!"visited={min n.toNat! m.length}"
+  | ["new"] => st {} "ok"
+  | ["store", k, v] => st (m.swap k.toInt! v.toInt!).1 "ok"
+  | ["load", k] => let (m', r) := m.load k.toInt!; st m' (vb r)
+  | ["loadorstore", k, v] => let (m', r) := m.loadOrStore k.toInt! v.toInt!; st m' s!"{r.1},{b r.2}"
+  | ["loadanddelete", k] => let (m', r) := m.loadAndDelete k.toInt!; st m' (vb r)
+  | ["delete", k] => st (m.loadAndDelete k.toInt!).1 "ok"
+  | ["swap", k, v] => let (m', r) := m.swap k.toInt! v.toInt!; st m' (vb r)
+  | ["cas", k, o, n] => let (m', r) := m.cas k.toInt! o.toInt! n.toInt!; st m' (b r)
+  | ["cad", k, o] => let (m', r) := m.cad k.toInt! o.toInt!; st m' (b r)
+  | ["clear"] => st m.clear "ok"
+  | ["range", n] => let (m', pairs) := m.range; st m' s!"visited={min n.toNat! pairs.length}"
+  | ["len"] => let (m', pairs) := m.range; st m' s!"{pairs.length}"
   | _ => (m, "bad-op")
 
 def parseFns (s : String) : List (Option Nat) :=
@@ -132,7 +153,8 @@ def utlStep (s : UtlState) (toks : List String) : UtlState × String :=
   | "slice" :: t => let (g, o) := sliceStep s.gs t; ({ s with gs := g }, o)
   | "set" :: t => let (x, o) := setStep s.set t; ({ s with set := x }, o)
   | "map" :: t => let (x, o) := mapStep s.mp t; ({ s with mp := x }, o)
-  | "mapq" :: t => let (x, o) := mapStep s.mp t true; ({ s with mp := x }, o)
+  | "mapq" :: t => let (x, o) := mapStep s.mp t 1; ({ s with mp := x }, o)
+  | "mapr" :: t => let (x, o) := mapStep s.mp t 2; ({ s with mp := x }, o)
   | "em" :: t => emStep s t
   | ["b64id", r, seq] => (s, hexOfChars (generateId (unhex r) seq.toNat!))
   | ["yeast", "enc", n] => (s, hexOfChars (yEncode n.toNat!))
